@@ -45,6 +45,7 @@ class SolveRecorder:
         self.orig = sla.spsolve
         self.first = None
         self.count = 0
+        self.later_sv = None    # smallest sigma_min/sigma_max over the matrices of the later (smoothing) solves
 
     def __enter__(self):
         rec = self
@@ -54,6 +55,14 @@ class SolveRecorder:
             rec.count += 1
             if rec.first is None:
                 rec.first = (A.copy(), np.array(b, dtype=complex).copy(), np.array(x, dtype=complex).reshape(-1).copy())
+            elif A.shape[0] and A.shape[0] <= 600:
+                try:
+                    sv = np.linalg.svd(A.toarray(), compute_uv=False)
+                    ratio = float(sv[-1] / sv[0]) if sv[0] > 0 else 0.0
+                except Exception:  # noqa
+                    ratio = None
+                if ratio is not None:
+                    rec.later_sv = ratio if rec.later_sv is None else min(rec.later_sv, ratio)
             return x
         self.sla.spsolve = wrapped
         return self
@@ -85,6 +94,8 @@ def run_case(c, mesh=None):
     if elem == "vertices":
         kw["cad_correction"] = False
         kw["smooth_normals"] = bool(c.get("smooth_normals", True))
+    if c.get("smooth_attach_weight") is not None:
+        kw["smooth_attach_weight"] = float(c["smooth_attach_weight"])
     fld = ff.SurfaceFrameField(m, elem, **kw)
     out["edges"] = [[int(a), int(b)] for a, b in m.edges]
     out["n_boundary_edges"] = len(m.boundary_edges)
@@ -118,7 +129,13 @@ def run_case(c, mesh=None):
     out["lap"] = mat_entries(lap)
     out["lap_shape"] = [int(lap.shape[0]), int(lap.shape[1])]
     with SolveRecorder() as rec:
-        fld.optimize()
+        try:
+            fld.optimize()
+        except Exception as ex:  # noqa - the operator, constraints .. observed so far are returned with the error
+            out["crash"] = {"error": "%s: %s" % (type(ex).__name__, ex), "trace": traceback.format_exc()[-1500:]}
+            return out
+    if rec.later_sv is not None and len(fe) > 0:
+        out["smooth_sv"] = rec.later_sv
     if rec.first is not None and len(fe) > 0:  # the bordered branch: first call = the harmonic-extension solve
         A, b, x = rec.first
         out["solve"] = {"A": mat_entries(A), "shape": [int(A.shape[0]), int(A.shape[1])],
